@@ -132,3 +132,72 @@ func Harness_C06_shape_Polygon_cumulative() {
 	}
 	vrShapeContract(p)
 }
+
+// Index location logic: for an arbitrary sorted, pairwise-disjoint list of index cells,
+// LocateCellID classifies the target exactly (Indexed / Subdivided / Disjoint) and positions
+// the iterator as documented; LocatePoint finds the index cell containing the point's leaf.
+func vrIndexWithCells(n int) *ShapeIndex {
+	idx := NewShapeIndex()
+	cells := vrCellIDs("cell", n)
+	for i := 1; i < n; i++ {
+		vr.Assume(cells[i-1].RangeMax() < cells[i].RangeMin())
+	}
+	idx.cells = cells
+	return idx
+}
+
+func Harness_C06_locate_cellid() {
+	n := vr.Choose("n", 0, 3)
+	idx := vrIndexWithCells(n)
+	it := NewShapeIndexIterator(idx)
+	target := vrValidCellID("target")
+	rel := it.LocateCellID(target)
+	indexed, subdivided := false, false
+	for _, c := range idx.cells {
+		indexed = vr.Or(indexed, c.Contains(target))
+		subdivided = vr.Or(subdivided, target.Contains(c))
+	}
+	vr.Assert("Indexed ⇔ some index cell contains the target", (rel == Indexed) == indexed)
+	vr.Assert("Subdivided ⇔ not indexed and the target contains some index cell", (rel == Subdivided) == vr.And(!indexed, subdivided))
+	vr.Assert("Disjoint otherwise", (rel == Disjoint) == vr.And(!indexed, !subdivided))
+	if rel == Indexed {
+		vr.Assert("Indexed: positioned on the containing cell", it.CellID().Contains(target))
+	}
+	if rel == Subdivided {
+		first := true
+		for _, c := range idx.cells {
+			if first && target.Contains(c) {
+				// the first index cell inside the target
+				vr.Assert("Subdivided: positioned on the first index cell inside the target", it.CellID() == c)
+				first = false
+			}
+		}
+	}
+	vr.Reach("end")
+}
+
+var vrC06Leaf CellID
+
+func vrstub_C06_cellIDFromPoint(p Point) CellID { return vrC06Leaf }
+
+func Harness_C06_locate_point() {
+	vr.Stub("cellIDFromPoint", "vrstub_C06_cellIDFromPoint")
+	n := vr.Choose("n", 0, 3)
+	idx := vrIndexWithCells(n)
+	it := NewShapeIndexIterator(idx)
+	vrC06Leaf = vrLeaf("leaf")
+	var p Point
+	if !vr.Symbolic() {
+		p = vrC06Leaf.Point() // natively the real cellIDFromPoint maps the leaf centre back to the leaf
+	}
+	found := it.LocatePoint(p)
+	want := false
+	for _, c := range idx.cells {
+		want = vr.Or(want, c.Contains(vrC06Leaf))
+	}
+	vr.Assert("LocatePoint ⇔ some index cell contains the point's leaf cell", found == want)
+	if found {
+		vr.Assert("LocatePoint: positioned on the containing cell", it.CellID().Contains(vrC06Leaf))
+	}
+	vr.Reach("end")
+}
